@@ -49,7 +49,17 @@ def limits(n):
     """time / allocation limits of one case as a function of the input length (mirrored in harness c04.rs `bulk`)"""
     tmo = 3000 + n // 50
     tmo = ((tmo + 999) // 1000) * 1000
-    return {"tmo_ms": tmo, "req_limit": 64 * MIB + 4096 * min(n, 400000), "live_limit": 512 * MIB + 4096 * n}
+    return {"tmo_ms": tmo, "req_limit": mem_budget(n), "live_limit": mem_budget(n)}
+
+
+def mem_budget(n):
+    """M(n) of spec/Trace_Adversary.tla"""
+    return 64 * MIB + min(4096 * min(n, 300000), 1 << 30) + 32 * min(n, 20000000)
+
+
+def time_budget_us(n):
+    """T(n) of spec/Trace_Adversary.tla"""
+    return 1500000 + n // 4
 
 
 def amplify(b, nests, amp):
@@ -273,7 +283,7 @@ def run(tier):
             c["chain"] = chain
             c["chain_check"] = bool(m.get("chain_last"))
             c["stack_kb"] = 2048
-            n += chain[2] * 90
+            n += chain[2] * (160 if chain[5] == "bigfirst" else 90)
         c.update(limits(n))
         if m.get("use"):
             c["use"] = m["use"]
@@ -283,6 +293,8 @@ def run(tier):
             c["want_dig"] = True
         cases.append(c)
         m = dict(m, key=key, group=GROUP.get(ep, ep), n=n)
+        if ":amp:" in m["src"]:      # an input derived from an amplification seed keeps that shape's name, whatever else was done to it
+            m["rep"] = "shape." + m["src"].split(":amp:", 1)[1].split("+")[0]
         meta.append(m)
 
     big_chains = collections.Counter()
@@ -296,6 +308,8 @@ def run(tier):
         decoys = [bytes(m["v"]).decode("latin-1") for m in r["muts"] if m["k"] == "DecoyKeyword" and m["a"] != "noop" and m["idx"] >= 2]
         if decoys:
             base["rep"] = "decoy." + re.sub(r"[^A-Za-z%]", "", decoys[0][:-1])
+        if r["tag"].startswith("amp:"):
+            base["rep"] = "shape." + r["tag"][4:]
         for ep in eps:
             add(ep, r["bytes"], r["dict"], dict(base, dig=(r["ep"] == "file")))
             if r.get("chains") and len(r["chains"]) == 1:
@@ -369,7 +383,8 @@ def run(tier):
                     d[i - 1][0] = list(key)
                 else:
                     d[i - 1][1]["v"][j - 1][0] = list(key)
-            m = {"src": src, "muts": muts, "trivial": False, "rdok": False, "neutral": False, "rec": ri, "rep": "",
+            m = {"src": src, "muts": muts, "trivial": False, "rdok": False, "neutral": False, "rec": ri,
+                 "rep": ("shape." + r["tag"][4:]) if r["tag"].startswith("amp:") else "",
                  "use": r.get("use") or [], "probes": [], "wzero": False, "nest": []}
             for ep in (["load"] if r["ep"] == "file" else [r["ep"]]):
                 add(ep, data, d, m)
@@ -426,6 +441,24 @@ def run(tier):
     if len(outs) != first_bulk + nbulk:
         raise vlib.ToolError("harness lost cases: %d of %d" % (len(outs), first_bulk + nbulk))
 
+    # time budget T(n): a case over it is measured again, alone; over it twice it is "slow"
+    case_len = {}
+    for i, c in enumerate(cases):
+        case_len[i] = meta[i]["n"]
+    over = [i for i, o in enumerate(outs) if i < len(cases) and o.get("ran") and o.get("kind") in ("ok", "err")
+            and int(o.get("us") or 0) > time_budget_us(case_len[i])]
+    if over:
+        rin, rout = os.path.join(w, "slow.ndjson"), os.path.join(w, "slow.out.ndjson")
+        write_ndjson(rin, [cases[i] for i in over[:40]])
+        c04(["run", "--in", rin, "--out", rout, "--jobs", 3, "--max-hangs", 40])
+        for i, o2 in zip(over[:40], read_ndjson(rout)):
+            if o2.get("kind") in ("ok", "err") and int(o2.get("us") or 0) > time_budget_us(case_len[i]):
+                outs[i] = dict(outs[i], kind="slow", msg="%.1f s and %.1f s (alone) for %d bytes; budget %.1f s" % (
+                    int(outs[i]["us"]) / 1e6, int(o2["us"]) / 1e6, case_len[i], time_budget_us(case_len[i]) / 1e6))
+            elif o2.get("kind") not in ("ok", "err"):
+                outs[i] = dict(o2, h=outs[i].get("h"))
+    chk.extra["over_time_budget_first_run"] = len(over)
+
     # (B) the supervisor must have seen each injected failure for what it is
     want = {"panic": "panic", "overflow": "stackoverflow", "alloc": "allocabort", "hang": "hang", "ok": "ok"}
     for c, o in zip(selftests, outs[len(cases):first_bulk]):
@@ -461,7 +494,7 @@ def run(tier):
             continue
         executed += 1
         kinds[o["kind"]] += 1
-        if o["kind"] in ("ok", "err") and not int(o.get("refused") or 0) and int(o.get("peak") or 0) < 32 * MIB:
+        if o["kind"] in ("ok", "err") and not int(o.get("refused") or 0) and int(o.get("peak") or 0) < 32 * MIB and not o.get("capped"):
             okpool.append(i)
             us = int(o.get("us") or 0)
             if us > slowest[0]:
@@ -478,18 +511,18 @@ def run(tier):
                        "loc": (o.get("loc") or "").rsplit(":", 1)[0], "mcl": o.get("mcl") or "",
                        "refused": digits(o.get("refused")), "peak": digits(o.get("peak")), "len": m["n"], "dict": c.get("dict") or [],
                        "bytes": list(big_number_windows(bytes.fromhex(c["hex"]))) if need_bytes else [],
-                       "nest": m["nest"], "rep": m.get("rep", ""), "wzero": bool(m["wzero"]),
+                       "nest": m["nest"], "rep": m.get("rep", ""), "wzero": bool(m["wzero"]), "capped": bool(o.get("capped")),
                        "insx": ins_keys(m["muts"], o.get("refused"), c.get("dict"))[0],
                        "insb": ins_keys(m["muts"], o.get("refused"), c.get("dict"))[1]})
     ctl = [
         {"id": -1, "group": "file", "ep": "load", "kind": "panic", "loc": "lopdf:injected.rs", "mcl": "add-overflow", "refused": [], "peak": [], "len": 100,
-         "dict": [], "bytes": [], "nest": [], "rep": "", "wzero": False, "insx": "", "insb": ""},
+         "dict": [], "bytes": [], "nest": [], "rep": "", "wzero": False, "capped": False, "insx": "", "insb": ""},
         {"id": -2, "group": "filter", "ep": "filter", "kind": "err", "loc": "", "mcl": "", "refused": digits(1 << 32), "peak": [], "len": 100,
-         "dict": [], "bytes": [], "nest": [], "rep": "", "wzero": False, "insx": "", "insb": ""},
+         "dict": [], "bytes": [], "nest": [], "rep": "", "wzero": False, "capped": False, "insx": "", "insb": ""},
         {"id": -3, "group": "filter", "ep": "filter", "kind": "err", "loc": "", "mcl": "", "refused": digits((1 << 63) - 1), "peak": digits(5000), "len": 100,
-         "dict": [], "bytes": [], "nest": [], "rep": "", "wzero": False, "insx": "", "insb": ""},
+         "dict": [], "bytes": [], "nest": [], "rep": "", "wzero": False, "capped": False, "insx": "", "insb": ""},
         {"id": -4, "group": "file", "ep": "load", "kind": "hang", "loc": "", "mcl": "", "refused": [], "peak": [], "len": 100,
-         "dict": [], "bytes": [], "nest": [], "rep": "", "wzero": False, "insx": "", "insb": ""},
+         "dict": [], "bytes": [], "nest": [], "rep": "", "wzero": False, "capped": False, "insx": "", "insb": ""},
     ]
     verdicts, s2, t2 = vlib.validate_trace("Trace_Adversary.tla", "Trace_Adversary.cfg", judged + ctl, "c04judge",
                                            boundaries=list(range(len(judged) + len(ctl))), chunks=1 if quick else 8)
